@@ -175,6 +175,7 @@ def run_tlc(module, cfg_path, scratch, workers=16, env_extra=None, timeout=3600,
     res.wall_s = time.time() - t0
     res.returncode = proc.returncode
     tail = []
+    errs = []
     ncase = 0
     with open(outpath, errors="replace") as outf:
         for line in outf:
@@ -197,6 +198,8 @@ def run_tlc(module, cfg_path, scratch, workers=16, env_extra=None, timeout=3600,
                     res.infos.append(vals)
                 continue
             tail.append(line)
+            if len(errs) < 12 and (line.startswith("Error:") or "evaluat" in line or "Attempted" in line or errs and len(errs) < 6):
+                errs.append(line[:300])
             if len(tail) > 120:
                 del tail[:60]
             m = re.match(r"^(\d+) states generated, (\d+) distinct states found", line)
@@ -231,7 +234,7 @@ def run_tlc(module, cfg_path, scratch, workers=16, env_extra=None, timeout=3600,
     os.unlink(outpath)
     res.stdout = "\n".join(tail)
     if res.returncode != 0 and res.violated is None and not res.postcondition_failed:
-        res.error_text = "\n".join(tail[-40:])
+        res.error_text = "\n".join(errs + ["..."] + tail[-12:])
         raise TLCError("TLC failed on %s (exit %s):\n%s" % (module, res.returncode, res.error_text))
     return res
 
